@@ -111,6 +111,9 @@ class VC(object):
         self.ctx.assume(f)
 
     def check_cover(self):
+        if getattr(self, '_covered', False):
+            return
+        self._covered = True
         if not self.ctx.feasible():
             self.ctx.obligations.append(_mk_obl("vacuity/requires-satisfiable", 'refuted', detail='preconditions are contradictory'))
 
@@ -172,6 +175,50 @@ class VC(object):
             return Outcome('return', v)
         except PyRaise as e:
             return Outcome('raise', e.exc)
+
+    def sum_info(self, value):
+        """value = (+/-) Sigma_{k<n} term(k) as produced by the library model -> (sign, n, term)"""
+        sums = getattr(self.ctx, 'sums', {})
+        v = z3.simplify(value) if isinstance(value, z3.ExprRef) else value
+        sign = 1
+        for _ in range(3):
+            if isinstance(v, z3.ExprRef) and v.decl().kind() == z3.Z3_OP_UMINUS:
+                sign, v = -sign, v.children()[0]
+            elif isinstance(v, z3.ExprRef) and v.decl().kind() == z3.Z3_OP_MUL and len(v.children()) == 2 \
+                    and z3.is_rational_value(v.children()[0]) and v.children()[0].as_fraction() == -1:
+                sign, v = -sign, v.children()[1]
+        if isinstance(v, z3.ExprRef) and v.decl().kind() == z3.Z3_OP_UNINTERPRETED and str(v.decl()) in sums:
+            ps, term, n = sums[str(v.decl())]
+            return sign, n, term
+        return None
+
+    def ensure_sum(self, name, value, n, term, hyps=None):
+        """value == Sigma_{k<n} term(k), by extensionality: same range, equal summands at a fresh index"""
+        info = self.sum_info(value)
+        if info is None:
+            if isinstance(n, int) and n <= 8:
+                acc = z3.RealVal(0)
+                for i in range(n):
+                    acc = acc + term(z3.IntVal(i))
+                self.ensure(name, value == acc)
+                return
+            self.ensure(name + " [result is a sum]", z3.BoolVal(False))
+            return
+        sign, n2, term2 = info
+        k = z3.Int(self.ctx._name('ks'))
+        self.ensure(name + " [range]", to_num(n2) == to_num(n))
+        self.ctx.solver.push()
+        pc_len = len(self.ctx.pc)
+        try:
+            self.ctx.assume(z3.And(k >= 0, k < to_num(n)))
+            if hyps:
+                for h in hyps(k):
+                    self.ctx.assume(h)
+            lhs = term2(k) if sign == 1 else -term2(k)
+            self.ctx.oblige(name + " [summand]", lhs == term(k), pure_hyps=(hyps(k) if hyps else []))
+        finally:
+            self.ctx.solver.pop()
+            del self.ctx.pc[pc_len:]
 
     def new_object(self, cls_spec, **fields):
         cls = self.cls(cls_spec) if isinstance(cls_spec, str) else cls_spec
